@@ -8,6 +8,7 @@ import GeonumModel.Lemmas.FloatTrig
 import GeonumModel.Lemmas.GeonumMag
 import GeonumModel.Lemmas.FloatMetric
 import GeonumModel.Props.C09
+import GeonumModel.Spec.RoundWitness
 
 set_option linter.unusedSectionVars false
 set_option linter.unusedVariables false
@@ -318,5 +319,20 @@ end E
 
 
 example {F : Type} [FloatSpec F] : (⟨zero, 2⟩ : Angle F).Inv := inv_zero 2
+
+
+/-! ### R — on the arithmetic that really rounds (`R64`: round-to-nearest on the binary64 grid, correctly rounded libm) -/
+section R
+
+/-- (R) the Lagrange identity `dot² + wedge² = (|a||b|)²` up to the stated bound, for all pairs of binary64 numbers in the domain -/
+theorem lagrange_rounded {a b : Geonum R64} (ha : a.angle.Inv) (hb : b.angle.Inv) (hma : a.MagDom) (hmb : b.MagDom) :
+    |((fmul (fmul a.mag b.mag) (FloatLike.cos (b.angle.geometricSub a.angle).gradeAngle)).v) ^ 2
+      + ((fmul (fmul a.mag b.mag) (fabs (FloatLike.sin (b.angle.geometricSub a.angle).gradeAngle))).v) ^ 2
+      - (a.mag.v * b.mag.v) ^ 2|
+      ≤ 2 * (a.mag.v * b.mag.v * ((e10 : R64).v + 1 / 10 ^ 14) + 1 / 10 ^ 29)
+          * (2 * (a.mag.v * b.mag.v) + (a.mag.v * b.mag.v * ((e10 : R64).v + 1 / 10 ^ 14) + 1 / 10 ^ 29)) :=
+  lagrange_float (F := R64) ha hb hma hmb
+
+end R
 
 end GeonumModel.C10
